@@ -466,3 +466,41 @@ fn t11_geometric_harmonic_ci_api_f64() {
         Err(e) => assert!(documented_ci_error(&e), "C11:harmonic:ci:undocumented-error-variant"),
     }
 }
+
+// a rejected value in the middle of an extend leaves exactly the state after the valid prefix (earlier data is kept)
+#[kani::proof]
+#[kani::unwind(6)]
+#[kani::stub(crate::mean::Arithmetic::append, append_recorder)]
+#[kani::stub(<f64 as num_traits::Float>::ln, ln_stub_f64)]
+fn c09_extend_error_keeps_earlier_data() {
+    let data = any_prefix_f64::<3>();
+    let mut first_bad = 3;
+    let mut j = 3;
+    while j > 0 {
+        j -= 1;
+        if j < data.len && data.d[j] <= 0.0 {
+            first_bad = j;
+        }
+    }
+    let tag0: usize = kani::any();
+    kani::assume(tag0 >= 1 && tag0 <= 1000);
+    let inner = raw_arith(kani::any(), kani::any(), kani::any(), kani::any(), tag0);
+    let which: bool = kani::any();
+    kani::cover!(first_bad == 1 && data.len == 3, "rejected value in the middle");
+    let (r, count_after) = if which {
+        let mut h = Harmonic { recip_space: inner };
+        let r = StatisticsOps::extend(&mut h, &data);
+        (r, h.recip_space.count)
+    } else {
+        let mut g = Geometric { log_space: inner };
+        let r = StatisticsOps::extend(&mut g, &data);
+        (r, g.log_space.count)
+    };
+    if first_bad < data.len {
+        assert!(matches!(r, Err(CIError::NonPositiveValue(_))), "C09:extend:rejection-not-reported");
+        assert!(count_after == tag0 + first_bad, "C09:extend:error-loses-or-duplicates-earlier-data");
+        assert!(rec_calls() == first_bad, "C09:extend:appends-before-the-rejected-value");
+    } else {
+        assert!(r.is_ok() && count_after == tag0 + data.len && rec_calls() == data.len, "C09:extend:count");
+    }
+}
